@@ -162,3 +162,65 @@ Proof.
     rewrite Hs12l. now rewrite firstn_skipn.
   - unfold voff, TAGW, LENW, HDR. f_equal. f_equal. lia.
 Qed.
+
+Lemma firstn_zeros n : forall m, (n <= m)%nat -> firstn n (zeros m) = zeros n.
+Proof. induction n as [|n IH]; intros m H; [reflexivity|]. destruct m as [|m]; [lia|]. cbn [zeros repeat firstn]. f_equal. apply IH. lia. Qed.
+Lemma firstn_zeros_app n m (X : list byte) : (n <= m)%nat -> firstn n (zeros m ++ X) = zeros n.
+Proof.
+  intros H. rewrite firstn_app, zeros_length. replace (n - m)%nat with 0%nat by lia. cbn [firstn].
+  rewrite app_nil_r. now apply firstn_zeros.
+Qed.
+
+(** zeros in front of a terminator-led tail are again a terminator-led tail *)
+Lemma term_zeros_front k (tail : list byte) : term tail -> term (zeros k ++ tail).
+Proof.
+  intros Ht. destruct (le_lt_dec 8 (length (zeros k ++ tail))) as [H8|H8].
+  - right. right. split; [exact H8|]. unfold zero_tag.
+    rewrite app_length, zeros_length in H8.
+    destruct Ht as [->|[[Hl Hz]|[Hl Hz]]].
+    + cbn [length] in H8. rewrite app_nil_r. apply firstn_zeros. lia.
+    + apply all_zero_iff in Hz. rewrite Hz, <- zeros_app. apply firstn_zeros. lia.
+    + destruct (le_lt_dec 8 k) as [Hk|Hk]; [now apply firstn_zeros_app|].
+      rewrite firstn_app, zeros_length. rewrite (firstn_all2 (zeros k)) by (rewrite zeros_length; lia).
+      assert (Hf : firstn (8 - k) tail = zeros (8 - k)).
+      { rewrite <- (firstn_skipn 8 tail). rewrite Hz. unfold zero_tag. apply firstn_zeros_app. lia. }
+      rewrite Hf, <- zeros_app. f_equal. lia.
+  - destruct (zeros k ++ tail) eqn:E; [left; reflexivity|]. rewrite <- E in *. right. left. split; [exact H8|].
+    rewrite all_zero_app, all_zero_zeros. cbn [andb].
+    rewrite app_length, zeros_length in H8.
+    destruct Ht as [->|[[Hl Hz]|[Hl Hz]]]; [reflexivity|exact Hz|lia].
+Qed.
+
+(** after a successful shrink (or same-size resize) on any valid slab the result is again a valid
+    slab of the resized entry list: every later lookup and listing sees exactly that list (C02) *)
+Theorem shrink_keeps_valid es (tail : list byte) t r a v b l :
+  Forall wf_entry es -> term tail -> wf_tag t -> split_entry es t r = Some (a, v, b) -> l <= len v ->
+  exists tail', term tail' /\ Forall wf_entry (a ++ (t, resize l v) :: b) /\
+    realloc (enc es ++ tail) t l r = (enc (a ++ (t, resize l v) :: b) ++ tail', Ok (voff a)).
+Proof.
+  intros Hwf Hterm Ht Hsp Hle.
+  pose proof (realloc_any_tail es tail t r a v b l Hwf Hterm Ht Hsp) as H.
+  destruct (split_entry_spec _ _ _ _ _ _ Hsp) as [Hes _].
+  pose proof Hwf as Hwf'. rewrite Hes in Hwf'. apply Forall_app in Hwf' as [Ha Hb].
+  inversion Hb as [|? ? He Hb']; subst x l0.
+  assert (Hlv : len v < U32_LIMIT) by exact (proj2 He).
+  replace ((len v <? l) && _) with false in H by lia.
+  replace (U32_LIMIT <=? l) with false in H by lia.
+  exists (tail_after tail (len v) l). split; [|split; [|exact H]].
+  - unfold tail_after. replace (l <=? len v) with true by lia. now apply term_zeros_front.
+  - apply Forall_app. split; [assumption|]. constructor; [|assumption].
+    split; cbn [fst snd]; [exact Ht|]. rewrite resize_len. lia.
+Qed.
+
+(** a resize that fails on any valid slab returns the slab unchanged (and it still opens) *)
+Theorem realloc_error_identity_any_tail es (tail : list byte) t r a v b l e :
+  Forall wf_entry es -> term tail -> wf_tag t -> split_entry es t r = Some (a, v, b) ->
+  snd (realloc (enc es ++ tail) t l r) = Err e ->
+  fst (realloc (enc es ++ tail) t l r) = enc es ++ tail /\ check_data (enc es ++ tail) = Ok tt.
+Proof.
+  intros Hwf Hterm Ht Hsp He.
+  rewrite (realloc_any_tail es tail t r a v b l Hwf Hterm Ht Hsp) in *.
+  split.
+  - destruct ((len v <? l) && _); [reflexivity|]. destruct (U32_LIMIT <=? l); [reflexivity|]. discriminate.
+  - unfold check_data. rewrite (discs_and_end_wf es tail Hwf Hterm). reflexivity.
+Qed.
